@@ -392,6 +392,39 @@ def lemma_parse_side(index):
     return {'state': 'inconclusive', 'why': f'fires on {tried[:3]} but the round trip is faithful'}
 
 
+def native_parse_stateless():
+    """jsonParse results are independent objects: editing one must not show in a later parse of the same text (run natively - CrossHair
+    neutralises functools caches)"""
+    import copy
+    from bare_script.library import SCRIPT_FUNCTIONS
+    n = 0
+    for text in ('{"a":[1,2,{"b":null}],"c":"x"}', '[1,[2,[3]]]', '"s"', '{"k":{}}'):
+        first = SCRIPT_FUNCTIONS['jsonParse']([text], None)
+        want = copy.deepcopy(first)
+        if isinstance(first, dict):
+            first['__poison__'] = 1
+            for v in first.values():
+                if isinstance(v, list):
+                    v.append('p')
+                if isinstance(v, dict):
+                    v['p'] = 1
+        elif isinstance(first, list):
+            first.append('p')
+            if first and isinstance(first[1], list):
+                first[1].append('p')
+        second = SCRIPT_FUNCTIONS['jsonParse']([text], None)
+        if second != want:
+            return {'state': 'violation', 'detail': {'clause': 'jsonParse of the same text is affected by edits to an earlier result', 'text': text, 'second': repr(second)[:200]},
+                    'replay': {'module': 'vf.props.c14', 'fn': 'replay_parse_stateless', 'kwargs': {}}}
+        n += 1
+    return {'state': 'ok', 'checked': n}
+
+
+def replay_parse_stateless():
+    r = native_parse_stateless()
+    return r['state'] == 'ok', r.get('detail', {})
+
+
 def lemma_grammar():
     bad = validate_grammar()
     if bad:
@@ -447,6 +480,8 @@ def plan(tier, seed, workdir):
     steps = discover_steps()
     p.add({'kind': 'native', 'id': 'grammar_validation', 'module': 'vf.props.c14', 'fn': 'lemma_grammar', 'kwargs': {}, 'timeout': 600, 'est': 60},
           family='translator validation: encoder output within the modelled grammar')
+    p.add({'kind': 'native', 'id': 'parse_stateless', 'module': 'vf.props.c14', 'fn': 'native_parse_stateless', 'kwargs': {}, 'timeout': 120, 'est': 5},
+          family='jsonParse keeps no state between calls (native)')
     for k, st in enumerate(steps):
         if st['side'] == 'stringify':
             p.add({'kind': 'lemma', 'id': f'step{k}_strings_{st["regex_name"]}', 'module': 'vf.props.c14', 'fn': 'lemma_step', 'kwargs': {'index': k},
